@@ -303,6 +303,70 @@ func (vc *VC) finish(ex *Exec) {
 		}
 		vc.oblige(fmt.Sprintf("ensures[%d]", k+1), tag, vc.fn.Pos(), exitReach, t, "postcondition: "+e.Text)
 	}
+	// refinement: this method implements an interface method whose contract is written over ghost fields; with the
+	// ghost fields read through the given abstraction of the concrete state, the interface contract's postconditions
+	// are obligations here (so callers that assume the interface contract may be handed this implementation)
+	for _, rf := range spec.Refines {
+		rtag := ""
+		if strings.HasPrefix(rf, "[") {
+			if k := strings.Index(rf, "]"); k > 0 {
+				rtag = rf[1:k]
+				rf = strings.TrimSpace(rf[k+1:])
+			}
+		}
+		parts := strings.SplitN(rf, " with ", 2)
+		ikey := strings.TrimSpace(parts[0])
+		ispec := vc.w.Contracts.Funcs[ikey]
+		if ispec == nil || len(parts) != 2 {
+			vc.errorf("refines: no interface contract %q (syntax: refines <key> with gf(self) := expr; ...)", ikey)
+			continue
+		}
+		abs := map[string]Expr{}
+		for _, a := range splitTop(parts[1], ';') {
+			a = strings.TrimSpace(a)
+			if a == "" {
+				continue
+			}
+			k := strings.Index(a, ":=")
+			lp := strings.Index(a, "(")
+			if k < 0 || lp < 0 || lp > k {
+				vc.errorf("refines: cannot parse abstraction %q", a)
+				continue
+			}
+			// `new-state expression @old old-state expression` when the two states are described by different ghost views
+			rhs := strings.SplitN(a[k+2:], "@old", 2)
+			e, err := parseExpr(strings.TrimSpace(rhs[0]))
+			if err != nil {
+				vc.errorf("refines: %v", err)
+				continue
+			}
+			abs[strings.TrimSpace(a[:lp])] = e
+			if len(rhs) == 2 {
+				eo, err := parseExpr(strings.TrimSpace(rhs[1]))
+				if err != nil {
+					vc.errorf("refines: %v", err)
+					continue
+				}
+				abs["@old:"+strings.TrimSpace(a[:lp])] = eo
+			}
+		}
+		if vc.conc {
+			continue
+		}
+		tag := rtag
+		for k, e := range ispec.Ensures {
+			ev := mkEval()
+			ev.gfAbs = abs
+			if len(vc.fn.Params) > 0 {
+				ev.vars["self"] = ev.params[vc.fn.Params[0].Name()]
+				for i, p := range vc.fn.Params[1:] {
+					ev.vars[fmt.Sprintf("arg%d", i)] = ev.params[p.Name()]
+				}
+			}
+			t := ev.evalBool(e.Expr)
+			vc.oblige(fmt.Sprintf("refines[%s].ensures[%d]", ikey, k+1), tag, vc.fn.Pos(), exitReach, t, "interface contract of "+ikey+" under the abstraction: "+e.Text)
+		}
+	}
 	ex.lockExit(spec, st, exitReach)
 }
 
